@@ -1,27 +1,19 @@
-"""Per-property registration used to generate MANIFEST.json (tools/gen_manifest.py).
+"""Collects per-property META dicts from harness/cXX.py (used by tools/gen_manifest.py)."""
+import importlib
+from pathlib import Path
 
-A property appears in CLAIMED once its Lean theorems, driver and harness module exist and
-its quick check passes on the unchanged tree; everything else is listed under
-not_applicable with the reason "not built yet" until then.
-"""
-
-TITLES = {}
-
-CLAIMED = {
-    "C17": {
-        "text": "Lean 4 theorems (unbounded in array length, bounds, pads, scales, point magnitudes) about a "
-        "hand model of the ROI helpers: normalisation selects the same elements, 3-way intersection law, "
-        "shape/empty/full/centre/pad, scale down-up, region from points (containment, within image, alignment, "
-        "non-finite points ignored, no magnitude bound).  The model is tied to /repo on every run by an exact "
-        "behavioural correspondence (exhaustive on small lengths, random large) and the numpy-based property "
-        "oracle; Spec/PySlice is itself validated against numpy each run.",
-        "note": "Trusted: Lean kernel + {propext, Classical.choice, Quot.sound}; numpy slicing as the reference "
-        "semantics; step != None slices are passed through by the library and not modelled.",
-        "technique": "Lean 4 proof over hand model + exhaustive/random differential correspondence with real code",
-        "design_ref": "DESIGN.md §4 C17",
-    },
-}
-
-PENDING_REASON = "machinery for this property is not built yet in this revision (work in progress; see DESIGN.md §10)"
 ALL = [f"C{i:02d}" for i in range(1, 21)]
+PENDING_REASON = "machinery for this property is not built yet in this revision (work in progress; see DESIGN.md §10)"
 NOT_APPLICABLE = {}
+
+
+def claimed():
+    out = {}
+    for pid in ALL:
+        if not (Path(__file__).parent / f"{pid.lower()}.py").exists():
+            continue
+        mod = importlib.import_module(f"harness.{pid.lower()}")
+        meta = getattr(mod, "META", None)
+        if meta and meta.get("claimed"):
+            out[pid] = meta
+    return out
